@@ -171,7 +171,18 @@ def make(rng, kind, d=2):
         parts = [make(rng, pool[rng.integers(0, len(pool))], d) for _ in range(k)]
         if d == 2 and rng.random() < 0.35:
             parts.insert(0, make(rng, ["ThinPlateSplines", "PiecewiseAffine"][rng.integers(0, 2)], d))
-        return mt.TransformChain([p[0] for p in parts]), (lambda: mt.TransformChain([p[1]() for p in parts]))
+        nest = len(parts) >= 3 and rng.random() < 0.3
+        cut = int(rng.integers(1, len(parts) - 1)) if nest else None
+
+        def assemble(members):
+            # a chain may itself be a member of a chain (what composing a warp with a chain builds)
+            if nest:
+                return mt.TransformChain(members[:cut] + [mt.TransformChain(members[cut:])])
+            return mt.TransformChain(members)
+        chain = assemble([p[0] for p in parts])
+        chain._vf_parts = parts          # (live member, recipe) pairs, read by histories that reparameterise a member
+        chain._vf_assemble = assemble
+        return chain, (lambda: assemble([p[1]() for p in parts]))
     if kind.startswith("identity:"):
         import menpo.transform as mt2
         cls = getattr(mt2, kind.split(":")[1])
